@@ -174,13 +174,13 @@ def c16(tier):
     q = tier == "quick"
     cases = [dict(kind="rules", seed=s * 7919 + i, config="default", params=dict(mode="single", part=i, nparts=16)) for i in range(16)]
     cases += mk("rules", 300 if q else 6000, s + 1, "default", mode="pairs", nrules=120)
-    cases += mk("rules", 6 if q else 60, s + 2, "default", mode="bad")
+    cases += mk("rules", 24 if q else 400, s + 2, "default", mode="bad")
     cases += mk("rules", 4 if q else 40, s + 3, "tiny", mode="bad")
     res = run_cases(cases)
     return report("C16", "exploration", res,
                   "every single matcher x operand (41 adversarial strings: empty, prefixes/suffixes of each other, case variants, non-ASCII, longer than any path) x "
                   "{no option, caseInsensitive true, false} evaluated by get/fetch against 40 paths (exhaustive in both tiers), "
-                  "random rules of 2-6 matchers, ill-formed rules (unknown names, mistyped operands, too many matchers, repeated option key); oracle: independent "
+                  "random rules of 2-6 matchers, ill-formed rules (unknown names incl. every near-miss of a matcher / option name: longer, shorter, other case, padded; mistyped operands, too many matchers, repeated option key); oracle: independent "
                   "Python matcher (byte-wise / ASCII case folding); refused rules must leave nothing registered; distinct = (matcher set, option) signatures",
                   t0, tier, SIM_ASSUME, extra_cov={"exhaustive": False, "single_matcher_product_exhaustive": True}, min_events={"get_checks": 300, "rule_path_evaluations": 10000})
 
